@@ -176,3 +176,71 @@ Qed.
 
 Lemma chunks_nonempty : forall P l, l <> [] -> chunks P l <> [].
 Proof. intros P [|a l] H; [congruence|]. unfold chunks. cbn [length chunks_aux]. discriminate. Qed.
+
+(* ---- 4.3 the writes of a session ---- *)
+Fixpoint linked_to (ws : list wr) (e : Z) : Prop :=
+  match ws with
+  | [] => True
+  | w :: r => h_next (w_hdr w) = match r with w' :: _ => w_slot w' | [] => e end /\ linked_to r e
+  end.
+
+Definition psz_sum (l : list wr) : Z := fold_right (fun w a => h_psz (w_hdr w) + a) 0 l.
+
+Lemma mk_writes_facts : forall chs slots k ver first total,
+  length chs = length slots ->
+  let ws := mk_writes k ver first total chs slots in
+  map w_slot ws = slots /\ map w_data ws = chs /\
+  (forall w, In w ws -> h_key (w_hdr w) = k /\ h_ver (w_hdr w) = ver /\ h_first (w_hdr w) = first /\
+                        h_psz (w_hdr w) = Z.of_nat (length (w_data w))) /\
+  linked_to ws (-1) /\
+  (forall w r, ws = w :: r -> h_esz (w_hdr w) = match r with [] => total | _ :: _ => 0 end).
+Proof.
+  induction chs as [|ch chs IH]; intros slots k ver first total Hlen; destruct slots as [|c slots]; try discriminate Hlen.
+  - cbn. split; [reflexivity|]. split; [reflexivity|]. split; [intros ? []|]. split; [exact I|].
+    intros w r H. discriminate H.
+  - cbn [length] in Hlen. injection Hlen as Hlen.
+    specialize (IH slots k ver first total Hlen). cbv zeta in IH. destruct IH as (I1 & I2 & I3 & I4 & I5).
+    cbn [mk_writes]. cbv zeta. cbn [map w_slot w_data]. rewrite I1, I2.
+    split; [reflexivity|]. split; [reflexivity|]. split; [|split].
+    + intros w [<- | Hin]; [cbn; auto| apply I3, Hin].
+    + cbn [linked_to w_hdr h_next]. split; [|exact I4].
+      destruct chs as [|ch' chs']; destruct slots as [|c' slots']; try discriminate Hlen; reflexivity.
+    + intros w r H. injection H as <- <-. cbn [w_hdr h_esz].
+      destruct chs as [|ch' chs']; destruct slots as [|c' slots']; try discriminate Hlen; reflexivity.
+Qed.
+
+Lemma linked_firstn : forall ws e m d, linked_to ws e -> (m < length ws)%nat ->
+  linked_to (firstn m ws) (w_slot (nth m ws d)).
+Proof.
+  induction ws as [|w ws IH]; intros e m d Hl Hm; [cbn in Hm; lia|].
+  destruct m as [|m]; [exact I|]. cbn [firstn nth linked_to]. destruct Hl as [Hn Hl]. cbn [length] in Hm.
+  split; [| apply (IH e); [exact Hl| lia]].
+  destruct ws as [|w' ws']; [cbn in Hm; lia|]. destruct m; cbn [firstn nth]; exact Hn.
+Qed.
+
+(* ---- 4.4 the image of a set of writes that touch every slot at most once ---- *)
+Definition cell_of (w : wr) : cell := mkCell (w_hdr w) (w_data w).
+
+Lemma fold_apply_spec : forall W d, NoDup (map w_slot W) ->
+  (forall w, In w W -> c_area (d (w_slot w)) = []) ->
+  (forall w, In w W -> fold_left apply_wr W d (w_slot w) = cell_of w) /\
+  (forall c, ~ In c (map w_slot W) -> fold_left apply_wr W d c = d c).
+Proof.
+  induction W as [|w W IH]; intros d Hnd Hz; [split; [intros ? []| reflexivity]|].
+  cbn [map] in Hnd. inversion Hnd as [|? ? Hnin Hnd']; subst. cbn [fold_left].
+  assert (Hz' : forall w', In w' W -> c_area (apply_wr d w (w_slot w')) = []).
+  { intros w' Hin. unfold apply_wr, upd. destruct (w_slot w' =? w_slot w) eqn:E.
+    - exfalso. apply Hnin. apply Z.eqb_eq in E. rewrite <- E. apply in_map, Hin.
+    - apply Hz. right. exact Hin. }
+  destruct (IH (apply_wr d w) Hnd' Hz') as [A B]. split.
+  - intros w' [<- | Hin]; [|apply A, Hin].
+    rewrite B by exact Hnin. unfold apply_wr, upd. rewrite Z.eqb_refl.
+    rewrite (Hz w (or_introl eq_refl)). unfold cell_of. f_equal. rewrite skipn_nil. apply app_nil_r.
+  - intros c Hc. cbn [map In] in Hc. rewrite B by tauto. unfold apply_wr, upd.
+    destruct (c =? w_slot w) eqn:E; [apply Z.eqb_eq in E; subst; tauto| reflexivity].
+Qed.
+
+Lemma disk_after_spec : forall W, NoDup (map w_slot W) ->
+  (forall w, In w W -> disk_after W (w_slot w) = cell_of w) /\
+  (forall c, ~ In c (map w_slot W) -> disk_after W c = cell0).
+Proof. intros W H. unfold disk_after. apply (fold_apply_spec W disk0 H). intros; reflexivity. Qed.
